@@ -277,6 +277,9 @@ def ser_variants(rnd):
     return dict(method='png_data_uri', kw=rnd.choice([{}, dict(scale=2, dark='blue'), dict(light=None)]))
 
 
+EQUAL_OPS = 6
+
+
 def build_pool(rnd, tier):
     """(operations, shared symbols)"""
     quick = tier == 'quick'
@@ -308,6 +311,10 @@ def build_pool(rnd, tier):
         parts = [content_for(rnd, rnd.choice([1, 2, 4]), rnd.randint(1, 9)) for _ in range(rnd.randint(2, 4))]
         parts = [(p, None) if rnd.random() < 0.3 else p for p in parts]
         argsets.append(('make', parts if rnd.random() < 0.7 else tuple(parts), dict(rnd.choice([{}, {'micro': False}, {'error': 'M'}, {'boost_error': False}]))))
+    # contents that compare (and hash) equal as Python values but are different contents: 1 / True / '1' / b'1', 0 / False — a memo keyed
+    # by the content must not confuse them (wave 10, C15f-1); they stay together at the front of the pool (see EQUAL_OPS)
+    equal = [('make', 1, {}), ('make', True, {}), ('make', 0, {}), ('make', False, {}), ('make', '1', {}), ('make', b'1', {})]
+    argsets = equal + argsets
     for kind, content, kw in argsets:
         ops.append(Op(kind, content, kw))
     # sequences
@@ -503,7 +510,11 @@ def run_C15(tier, rnd, st, res):
             idxs = base + base[::-1]
         else:
             idxs = [rnd.randrange(len(ops)) for _ in range(k)]
+        if h < 4:                                     # the equal-but-different contents in both orders, single-threaded and threaded
+            idxs = (list(range(EQUAL_OPS)) if h % 2 == 0 else list(range(EQUAL_OPS))[::-1]) + idxs[:4]
         nthreads = rnd.choice([1, 2, 2, 3, 4, 4, 8] if not quick else [1, 2, 2, 3, 4, 8])
+        if h < 2:
+            nthreads = 1
         results, snaps_all, kept_all = run_history(ops, idxs, shared, nthreads, 1e-6)
         hist_ops += len(idxs)
         snap = []
